@@ -1,5 +1,6 @@
 //! Native bounded contract checks through the real API with the real cryptography (child module of `core`).
 use super::*;
+use crate::verif_native::{capture, done, fail, vchk};
 use crate::{
     abe_policy::{AccessPolicy, EncryptionHint, QualifiedAttribute},
     api::Covercrypt,
@@ -63,17 +64,18 @@ fn e2e__decaps_iff_cover_relation() {
         for (e, (ss, enc)) in &encs {
             let got = cc.decaps(&usk, enc).unwrap();
             if authorized(&ap(u), e) {
-                assert!(got.as_ref() == Some(ss), "C01: key for '{u}' must open the encapsulation for '{e:?}' to the encapsulated secret (got {})", if got.is_some() { "another secret" } else { "nothing" });
+                vchk!(got.as_ref() == Some(ss), "C01: key for '{u}' must open the encapsulation for '{e:?}' to the encapsulated secret (got {})", if got.is_some() { "another secret" } else { "nothing" });
             } else {
-                assert!(got.is_none(), "C02: key for '{u}' must not open the encapsulation for '{e:?}'");
+                vchk!(got.is_none(), "C02: key for '{u}' must not open the encapsulation for '{e:?}'");
             }
             // hybridized iff every target right is hybridized: only SEC::TOP is hybridized in the test structure
             let all_hyb = e.to_dnf().iter().all(|c| c.iter().any(|q| q.dimension == "SEC" && q.name == "TOP"));
-            assert!(matches!(enc.encapsulations, Encapsulations::HEncs(_)) == all_hyb, "C11: the encapsulation for '{e:?}' is hybridized iff every targeted right is");
+            vchk!(matches!(enc.encapsulations, Encapsulations::HEncs(_)) == all_hyb, "C11: the encapsulation for '{e:?}' is hybridized iff every targeted right is");
             n += 1;
         }
     }
     println!("VERIF-COUNT e2e__decaps_iff_cover_relation {n}");
+    done();
 }
 
 // ---------------------------------------------------------------------------
@@ -211,7 +213,7 @@ impl World {
                 let (ss, enc) = real.unwrap_or_else(|e| panic!("C09: after [{hist}] encapsulating for '{p}' must succeed: {e}"));
                 self.encs.push((p.to_string(), ss, enc, me));
             }
-            None => assert!(real.is_err(), "C06/C09: after [{hist}] encapsulating for '{p}' must fail (a targeted right is not published)"),
+            None => vchk!(real.is_err(), "C06/C09: after [{hist}] encapsulating for '{p}' must fail (a targeted right is not published)"),
         }
     }
     fn rekey(&mut self, p: &str) {
@@ -244,18 +246,20 @@ impl World {
     /// every (key, encapsulation) pair agrees with the model; the public key re-derived from the master key is the published one
     fn check(&self, hist: &str) -> u64 {
         let mut n = 0;
+        // C03 speaks about histories that edit the structure; C04 / C05 about rotation, refresh and pruning
+        let lbl = if ["Delete", "AddAttr", "Disable"].iter().any(|k| hist.contains(k)) { "C03/C04/C05" } else { "C04/C05" };
         for (kp, usk, mk) in &self.keys {
             for (ep, ss, enc, me) in &self.encs {
                 let got = self.cc.decaps(usk, enc).unwrap();
                 if can_open(mk, me) {
-                    assert!(got.as_ref() == Some(ss), "C04/C05/C03: after [{hist}] the key for '{kp}' must open the encapsulation made for '{ep}' (model: it holds the secret used)");
+                    vchk!(got.as_ref() == Some(ss), "{lbl}: after [{hist}] the key for '{kp}' must open the encapsulation made for '{ep}' (model: it holds the secret used)");
                 } else {
-                    assert!(got.is_none(), "C04/C05/C03: after [{hist}] the key for '{kp}' must NOT open the encapsulation made for '{ep}' (model: it holds none of the secrets used)");
+                    vchk!(got.is_none(), "{lbl}: after [{hist}] the key for '{kp}' must NOT open the encapsulation made for '{ep}' (model: it holds none of the secrets used)");
                 }
                 n += 1;
             }
         }
-        assert!(self.msk.mpk().unwrap() == self.mpk, "C06/C13: after [{hist}] the public key re-derived from the master key differs from the one returned by the operation");
+        vchk!(self.msk.mpk().unwrap() == self.mpk, "C06/C13: after [{hist}] the public key re-derived from the master key differs from the one returned by the operation");
         n
     }
 }
@@ -316,16 +320,40 @@ fn run_history(seq: &[Op]) -> u64 {
     n
 }
 
+/// One history, clauses not fail-fast.  A failing history that contains serialization round-trips is run again without
+/// them: if that passes, the failure is a C13 failure (using the deserialized object changed a later outcome) and only that.
+fn checked_history(seq: &[Op]) -> u64 {
+    let mut n = 0;
+    let fails = capture(|| n = run_history(seq));
+    if fails.is_empty() {
+        return n;
+    }
+    if seq.iter().any(|o| matches!(o, Op::Roundtrip)) {
+        let without: Vec<Op> = seq.iter().cloned().filter(|o| !matches!(o, Op::Roundtrip)).collect();
+        if capture(|| { run_history(&without); }).is_empty() {
+            for m in fails {
+                fail(format!("C13: a serialization round-trip injected in a history changes a later outcome (the same history without it passes): {m}"));
+            }
+            return n;
+        }
+    }
+    for m in fails {
+        fail(m);
+    }
+    n
+}
+
 // @obl props=C03,C04,C05,C06,C09,C13 tier=quick fn=api::Covercrypt::refresh_usk shape="all histories of 2 operations out of 15 (rekey / prune / refresh keep|nokeep / disable / delete / add / keygen / serialization round-trip), 2 keys, 7 probe encapsulations after every step, compared with a chain model; real cryptography"
 #[test]
 fn history__decaps_agrees_with_chain_model_len2() {
     let mut n = 0u64;
     for a in OPS {
         for b in OPS {
-            n += run_history(&[*a, *b]);
+            n += checked_history(&[*a, *b]);
         }
     }
     println!("VERIF-COUNT history__decaps_agrees_with_chain_model_len2 {n}");
+    done();
 }
 
 // @obl props=C03,C04,C05,C06,C09,C13 tier=thorough fn=api::Covercrypt::refresh_usk shape="all histories of 3 operations out of 15, as above"
@@ -336,11 +364,12 @@ fn history__decaps_agrees_with_chain_model_len3() {
         return;
     }
     let mut n = 0u64;
-    for a in OPS { for b in OPS { for c in OPS { n += run_history(&[*a, *b, *c]); } } }
+    for a in OPS { for b in OPS { for c in OPS { n += checked_history(&[*a, *b, *c]); } } }
     println!("VERIF-COUNT history__decaps_agrees_with_chain_model_len3 {n}");
+    done();
 }
 
-// @obl props=C03,C04,C05,C06,C09 tier=quick fn=api::Covercrypt::refresh_usk shape="19 hand-picked histories of 3 to 6 operations (double rekey then prune then refresh, delete then add then refresh, disable then rekey, ...), chain model, real cryptography"
+// @obl props=C03,C04,C05,C06,C09,C13 tier=quick fn=api::Covercrypt::refresh_usk shape="19 hand-picked histories of 3 to 6 operations (double rekey then prune then refresh, delete then add then refresh, disable then rekey, ...), chain model, real cryptography"
 #[test]
 fn history__targeted_long_sequences() {
     use Op::*;
@@ -366,8 +395,9 @@ fn history__targeted_long_sequences() {
         &[Rekey("SEC::TOP"), Rekey("SEC::LOW && DPT::FIN"), Refresh(1, true), Refresh(0, true), Prune("DPT::FIN"), Refresh(1, true)],
     ];
     let mut n = 0u64;
-    for s in seqs { n += run_history(s); }
+    for s in seqs { n += checked_history(s); }
     println!("VERIF-COUNT history__targeted_long_sequences {n}");
+    done();
 }
 
 // ---------------------------------------------------------------------------
@@ -408,6 +438,7 @@ fn malleability__every_byte_of_an_encapsulation_is_bound() {
         }
     }
     println!("VERIF-COUNT malleability__every_byte_of_an_encapsulation_is_bound {n}");
+    done();
 }
 
 // @obl props=C07 tier=quick fn=core::primitives::decaps shape="structural rearrangements: reorder / drop / duplicate components, swap components, tags and traps between two encapsulations (classic and hybridized), 3 keys"
@@ -448,12 +479,13 @@ fn malleability__structural_rearrangements_are_rejected() {
             if *m == x1 { continue; }
             for (ki, usk) in keys.iter().enumerate() {
                 let r = cc.decaps(usk, m);
-                assert!(!matches!(r, Ok(Some(_))), "C07: encapsulation for '{e1}' with {name} is accepted by key {ki}");
+                vchk!(!matches!(r, Ok(Some(_))), "C07: encapsulation for '{e1}' with {name} is accepted by key {ki}");
                 n += 1;
             }
         }
     }
     println!("VERIF-COUNT malleability__structural_rearrangements_are_rejected {n}");
+    done();
 }
 
 // ---------------------------------------------------------------------------
@@ -472,44 +504,27 @@ fn pke__roundtrip_truncation_and_tampering() {
         let ptx: Vec<u8> = (0..len).map(|i| (i * 7 + len) as u8).collect();
         let ctx = PkeAc::<{ Aes256Gcm::KEY_LENGTH }, Aes256Gcm>::encrypt(&cc, &mpk, &ap("SEC::LOW && DPT::FIN"), &ptx).unwrap();
         let got = PkeAc::<{ Aes256Gcm::KEY_LENGTH }, Aes256Gcm>::decrypt(&cc, &ok, &ctx).unwrap();
-        assert!(got.as_deref().map(|v| &v[..]) == Some(&ptx[..]), "C12: an authorized key decrypts a {len}-byte plaintext to the exact plaintext");
-        assert!(PkeAc::<{ Aes256Gcm::KEY_LENGTH }, Aes256Gcm>::decrypt(&cc, &ko, &ctx).unwrap().is_none(), "C12: an unauthorized key gets 'not authorized'");
-        assert!(ctx.1.len() == len + 12 + 16, "C12: DEM ciphertext = nonce || ciphertext || tag");
+        vchk!(got.as_deref().map(|v| &v[..]) == Some(&ptx[..]), "C12: an authorized key decrypts a {len}-byte plaintext to the exact plaintext");
+        vchk!(PkeAc::<{ Aes256Gcm::KEY_LENGTH }, Aes256Gcm>::decrypt(&cc, &ko, &ctx).unwrap().is_none(), "C12: an unauthorized key gets 'not authorized'");
+        vchk!(ctx.1.len() == len + 12 + 16, "C12: DEM ciphertext = nonce || ciphertext || tag");
         if len <= 40 {
             for t in 0..ctx.1.len() {
                 let cut = (ctx.0.clone(), ctx.1[..t].to_vec());
                 let r = std::panic::catch_unwind(std::panic::AssertUnwindSafe(|| PkeAc::<{ Aes256Gcm::KEY_LENGTH }, Aes256Gcm>::decrypt(&cc, &ok, &cut)));
-                assert!(matches!(r, Ok(Err(_))), "C12/C14: a ciphertext truncated to {t} bytes (of {}) must yield an error, never a panic or data", ctx.1.len());
+                vchk!(matches!(r, Ok(Err(_))), "C12/C14: a ciphertext truncated to {t} bytes (of {}) must yield an error, never a panic or data", ctx.1.len());
                 n += 1;
             }
             for pos in 0..ctx.1.len() {
                 let mut bad = ctx.clone();
                 bad.1[pos] ^= 0x04;
-                assert!(PkeAc::<{ Aes256Gcm::KEY_LENGTH }, Aes256Gcm>::decrypt(&cc, &ok, &bad).is_err(), "C12/C07: altering byte {pos} of the DEM ciphertext must be rejected");
+                vchk!(PkeAc::<{ Aes256Gcm::KEY_LENGTH }, Aes256Gcm>::decrypt(&cc, &ok, &bad).is_err(), "C12/C07: altering byte {pos} of the DEM ciphertext must be rejected");
                 n += 1;
             }
         }
         n += 1;
     }
     println!("VERIF-COUNT pke__roundtrip_truncation_and_tampering {n}");
-}
-
-/// Non-fail-fast clauses: a check that interleaves clauses of several properties reports the first failure of
-/// EACH distinct property label (lines `VERIF-FAIL <message>` parsed by tools/vcheck.py), then panics.
-#[derive(Default)]
-struct Soft { fails: Vec<String> }
-impl Soft {
-    fn label(m: &str) -> &str { m.split(':').next().unwrap_or("") }
-    fn chk(&mut self, cond: bool, msg: impl FnOnce() -> String) {
-        if !cond {
-            let m = msg();
-            if !self.fails.iter().any(|f| Self::label(f) == Self::label(&m)) {
-                println!("VERIF-FAIL {}", m.replace('\n', " "));
-                self.fails.push(m);
-            }
-        }
-    }
-    fn done(self) { if let Some(f) = self.fails.first() { panic!("{f}") } }
+    done();
 }
 
 // @obl props=C12,C13,C14,C16,C07 tier=quick fn=EncryptedHeader::decrypt shape="metadata absent / empty / 1 / 16 / 33 bytes x authentication data absent / empty / 1 byte / non-empty; truncations also through the serialized form; key derivation labels pinned; mismatching authentication data; truncated and altered metadata; unauthorized key; serialization round-trip"
@@ -522,33 +537,32 @@ fn header__roundtrip_authentication_and_secret() {
     let metas: Vec<Option<Vec<u8>>> = vec![None, Some(vec![]), Some(vec![7]), Some(vec![1; 16]), Some((0..33).collect())];
     let aads: Vec<Option<Vec<u8>>> = vec![None, Some(vec![]), Some(b"aad".to_vec()), Some(vec![0]), Some(vec![1])];
     let mut n = 0u64;
-    let mut soft = Soft::default();
     for m in &metas {
         for a in &aads {
             let (secret, hdr) = EncryptedHeader::generate(&cc, &mpk, &ap("SEC::LOW && DPT::FIN"), m.as_deref(), a.as_deref()).unwrap();
             let clear = hdr.decrypt(&cc, &ok, a.as_deref()).unwrap().expect("C12: an authorized key opens the header");
-            soft.chk(clear.secret == secret, || format!("C12: the header yields the same secret that generation returned"));
-            soft.chk(clear.metadata == m.clone(), || format!("C12: the header yields the exact metadata (metadata {m:?}, aad {a:?})"));
-            soft.chk(hdr.decrypt(&cc, &ko, a.as_deref()).unwrap().is_none(), || format!("C12: an unauthorized key gets 'not authorized'"));
+            vchk!(clear.secret == secret, "C12: the header yields the same secret that generation returned");
+            vchk!(clear.metadata == m.clone(), "C12: the header yields the exact metadata (metadata {m:?}, aad {a:?})");
+            vchk!(hdr.decrypt(&cc, &ko, a.as_deref()).unwrap().is_none(), "C12: an unauthorized key gets 'not authorized'");
             // absent and empty authentication data are the same
             let other_empty: Option<&[u8]> = if a.is_none() { Some(&[]) } else { None };
             if a.as_ref().map_or(true, |x| x.is_empty()) {
                 let r = hdr.decrypt(&cc, &ok, other_empty);
-                soft.chk(r.is_ok() && r.unwrap().unwrap().metadata == m.clone(), || format!("C12: absent and empty authentication data are interchangeable"));
+                vchk!(r.is_ok() && r.unwrap().unwrap().metadata == m.clone(), "C12: absent and empty authentication data are interchangeable");
             }
             if m.is_some() {
-                soft.chk(hdr.decrypt(&cc, &ok, Some(b"other")).is_err(), || format!("C12: authentication data with different content must be rejected"));
+                vchk!(hdr.decrypt(&cc, &ok, Some(b"other")).is_err(), "C12: authentication data with different content must be rejected");
                 let ctx = hdr.encrypted_metadata.clone().unwrap();
                 for t in 0..ctx.len() {
                     let cut = EncryptedHeader { encapsulation: hdr.encapsulation.clone(), encrypted_metadata: Some(ctx[..t].to_vec()) };
                     let r = std::panic::catch_unwind(std::panic::AssertUnwindSafe(|| cut.decrypt(&cc, &ok, a.as_deref())));
-                    soft.chk(matches!(r, Ok(Err(_))), || format!("C12/C14: encrypted metadata truncated to {t} bytes must yield an error, never a panic or data"));
+                    vchk!(matches!(r, Ok(Err(_))), "C12/C14: encrypted metadata truncated to {t} bytes must yield an error, never a panic or data");
                     if t > 0 {
                         // the same truncated header travelling in serialized form (t = 0 is the absent / empty wire value)
                         let wire = EncryptedHeader::deserialize(&cut.serialize().unwrap()).unwrap();
                         let same = wire == cut;
                         let r = std::panic::catch_unwind(std::panic::AssertUnwindSafe(|| wire.decrypt(&cc, &ok, a.as_deref())));
-                        soft.chk(same && matches!(r, Ok(Err(_))), || format!("C12/C13/C14: a header whose encrypted metadata was truncated to {t} bytes, sent in serialized form, must come back unchanged (unchanged: {same}) and yield an error, never a panic or data (got {r:?})"));
+                        vchk!(same && matches!(r, Ok(Err(_))), "C12/C13/C14: a header whose encrypted metadata was truncated to {t} bytes, sent in serialized form, must come back unchanged (unchanged: {same}) and yield an error, never a panic or data (got {r:?})");
                     }
                     n += 1;
                 }
@@ -556,37 +570,37 @@ fn header__roundtrip_authentication_and_secret() {
                     let mut bad = ctx.clone();
                     bad[pos] ^= 0x10;
                     let h = EncryptedHeader { encapsulation: hdr.encapsulation.clone(), encrypted_metadata: Some(bad) };
-                    soft.chk(h.decrypt(&cc, &ok, a.as_deref()).is_err(), || format!("C12/C07: altering byte {pos} of the encrypted metadata must be rejected"));
+                    vchk!(h.decrypt(&cc, &ok, a.as_deref()).is_err(), "C12/C07: altering byte {pos} of the encrypted metadata must be rejected");
                     n += 1;
                 }
                 // the metadata key differs from the secret handed to the caller: decrypting the metadata with the returned secret as key must fail
                 use cosmian_crypto_core::{Dem, FixedSizeCBytes, Instantiable, Nonce, SymmetricKey};
                 let key = SymmetricKey::<32>::try_from_bytes(*secret.clone()).unwrap_or_else(|_| panic!("key"));
                 let nonce = Nonce::try_from_slice(&ctx[..12]).unwrap();
-                soft.chk(Aes256Gcm::new(&key).decrypt(&nonce, &ctx[12..], a.as_deref()).is_err(), || format!("C16: the metadata encryption key must differ from the secret handed to the caller (authentication data {a:?})"));
+                vchk!(Aes256Gcm::new(&key).decrypt(&nonce, &ctx[12..], a.as_deref()).is_err(), "C16: the metadata encryption key must differ from the secret handed to the caller (authentication data {a:?})");
                 // both derive from the encapsulated seed with the fixed, distinct labels of the pinned wire format,
                 // whatever the authentication data: metadata key = KDF(seed, 0x00), caller's secret = KDF(seed, 0x01)
                 let seed = cc.decaps(&ok, &hdr.encapsulation).unwrap().expect("C01: authorized");
                 let mk = SymmetricKey::<32>::derive(&seed, &[0u8]).unwrap_or_else(|_| panic!("kdf"));
                 let got = Aes256Gcm::new(&mk).decrypt(&nonce, &ctx[12..], a.as_deref());
-                soft.chk(got.as_ref().ok() == m.as_ref(), || format!("C16/C13: the metadata must be encrypted under KDF(seed, 0x00) whatever the authentication data ({a:?}): the key must stay independent of caller input and distinct from the caller's secret KDF(seed, 0x01)"));
+                vchk!(got.as_ref().ok() == m.as_ref(), "C16/C13: the metadata must be encrypted under KDF(seed, 0x00) whatever the authentication data ({a:?}): the key must stay independent of caller input and distinct from the caller's secret KDF(seed, 0x01)");
                 let mut s1 = Secret::<32>::default();
                 cosmian_crypto_core::kdf256!(&mut *s1, &*seed, &[1u8]);
-                soft.chk(s1 == secret, || format!("C16/C13: the secret handed to the caller is KDF(seed, 0x01)"));
+                vchk!(s1 == secret, "C16/C13: the secret handed to the caller is KDF(seed, 0x01)");
             }
             // wire format: absent and empty metadata are the same value
             let bytes = hdr.serialize().unwrap();
-            soft.chk(bytes.len() == hdr.length(), || format!("C13: header serialization has the announced length"));
+            vchk!(bytes.len() == hdr.length(), "C13: header serialization has the announced length");
             let back = EncryptedHeader::deserialize(&bytes).unwrap();
             let same = back == hdr || (hdr.encrypted_metadata.as_ref().map_or(false, |v| v.is_empty()) && back.encrypted_metadata.is_none() && back.encapsulation == hdr.encapsulation);
-            soft.chk(same, || format!("C13: header round-trip"));
+            vchk!(same, "C13: header round-trip");
             let c2 = back.decrypt(&cc, &ok, a.as_deref()).unwrap().unwrap();
-            soft.chk(c2.secret == secret, || format!("C13: a deserialized header yields the same secret"));
+            vchk!(c2.secret == secret, "C13: a deserialized header yields the same secret");
             n += 1;
         }
     }
     println!("VERIF-COUNT header__roundtrip_authentication_and_secret {n}");
-    soft.done();
+    done();
 }
 
 // ---------------------------------------------------------------------------
@@ -600,12 +614,12 @@ where
     let mut ser = Serializer::new();
     let n = x.write(&mut ser).unwrap();
     let bytes = ser.finalize().to_vec();
-    assert!(bytes.len() == x.length(), "C13: {what}: length() announces {} bytes but {} are written", x.length(), bytes.len());
-    assert!(n == bytes.len(), "C13: {what}: write() returns {n} but {} bytes are written", bytes.len());
+    vchk!(bytes.len() == x.length(), "C13: {what}: length() announces {} bytes but {} are written", x.length(), bytes.len());
+    vchk!(n == bytes.len(), "C13: {what}: write() returns {n} but {} bytes are written", bytes.len());
     let mut de = Deserializer::new(&bytes);
     let y = T::read(&mut de).unwrap_or_else(|e| panic!("C13: {what}: deserializing a serialized object fails: {e:?}"));
-    assert!(de.finalize().is_empty(), "C13: {what}: read() does not consume exactly the bytes written");
-    assert!(&y == x, "C13: {what}: the deserialized object differs from the original");
+    vchk!(de.finalize().is_empty(), "C13: {what}: read() does not consume exactly the bytes written");
+    vchk!(&y == x, "C13: {what}: the deserialized object differs from the original");
     bytes
 }
 
@@ -652,12 +666,13 @@ fn serialization__length_write_read_roundtrip() {
     for md in [None, Some(vec![]), Some(vec![1u8, 2, 3])] {
         let h = crate::CleartextHeader { secret: Secret::<32>::random(&mut *cc.rng()), metadata: md.clone() };
         let bytes = h.serialize().unwrap();
-        assert!(bytes.len() == h.length(), "C13: CleartextHeader: announced length");
+        vchk!(bytes.len() == h.length(), "C13: CleartextHeader: announced length");
         let back = crate::CleartextHeader::deserialize(&bytes).unwrap();
-        assert!(back.secret == h.secret && back.metadata.unwrap_or_default() == md.clone().unwrap_or_default(), "C13: CleartextHeader round-trip (absent and empty metadata are the same value)");
+        vchk!(back.secret == h.secret && back.metadata.unwrap_or_default() == md.clone().unwrap_or_default(), "C13: CleartextHeader round-trip (absent and empty metadata are the same value)");
         n += 1;
     }
     println!("VERIF-COUNT serialization__length_write_read_roundtrip {n}");
+    done();
 }
 
 fn no_panic<R>(what: &str, f: impl FnOnce() -> R) -> R {
@@ -750,6 +765,7 @@ fn robustness__truncation_corruption_and_huge_counts() {
         n += use_bytes(&cc, &keys, &b, &format!("degenerate input {b:?}"));
     }
     println!("VERIF-COUNT robustness__truncation_corruption_and_huge_counts {n}");
+    done();
 }
 
 // ---------------------------------------------------------------------------
@@ -768,11 +784,11 @@ fn freshness__repeated_calls_never_repeat() {
         let (mut secrets, mut tags, mut traps, mut seeds) = (BTreeSet::new(), BTreeSet::new(), BTreeSet::new(), BTreeSet::new());
         for i in 0..reps {
             let (ss, enc) = if i % 2 == 0 { cc.encaps(&mpk, &ap(e)).unwrap() } else { cc2.encaps(&mpk, &ap(e)).unwrap() };
-            assert!(secrets.insert(ss.to_vec()), "C16: two encapsulations for '{e}' share their secret");
-            assert!(tags.insert(enc.tag), "C16: two encapsulations for '{e}' share their tag");
-            assert!(traps.insert(enc.c.serialize_all()), "C16: two encapsulations for '{e}' share their traps");
+            vchk!(secrets.insert(ss.to_vec()), "C16: two encapsulations for '{e}' share their secret");
+            vchk!(tags.insert(enc.tag), "C16: two encapsulations for '{e}' share their tag");
+            vchk!(traps.insert(enc.c.serialize_all()), "C16: two encapsulations for '{e}' share their traps");
             let fs: Vec<[u8; 32]> = match &enc.encapsulations { Encapsulations::CEncs(v) => v.clone(), Encapsulations::HEncs(v) => v.iter().map(|x| x.1).collect() };
-            for f in fs { assert!(seeds.insert(f), "C16: two encapsulations for '{e}' share a masked seed"); }
+            for f in fs { vchk!(seeds.insert(f), "C16: two encapsulations for '{e}' share a masked seed"); }
             n += 1;
         }
     }
@@ -780,10 +796,10 @@ fn freshness__repeated_calls_never_repeat() {
     let (mut nonces, mut hn, mut hs) = (BTreeSet::new(), BTreeSet::new(), BTreeSet::new());
     for _ in 0..reps {
         let ctx = PkeAc::<{ Aes256Gcm::KEY_LENGTH }, Aes256Gcm>::encrypt(&cc, &mpk, &ap("DPT::FIN"), b"same plaintext").unwrap();
-        assert!(nonces.insert(ctx.1[..12].to_vec()), "C16: two PKE ciphertexts share their AEAD nonce");
+        vchk!(nonces.insert(ctx.1[..12].to_vec()), "C16: two PKE ciphertexts share their AEAD nonce");
         let (s, h) = EncryptedHeader::generate(&cc, &mpk, &ap("DPT::FIN"), Some(b"same metadata"), None).unwrap();
-        assert!(hn.insert(h.encrypted_metadata.as_ref().unwrap()[..12].to_vec()), "C16: two encrypted headers share their AEAD nonce");
-        assert!(hs.insert(s.to_vec()), "C16: two headers share their secret");
+        vchk!(hn.insert(h.encrypted_metadata.as_ref().unwrap()[..12].to_vec()), "C16: two encrypted headers share their AEAD nonce");
+        vchk!(hs.insert(s.to_vec()), "C16: two headers share their secret");
         let _ = h.decrypt(&cc, &usk, None).unwrap().unwrap();
         n += 1;
     }
@@ -793,8 +809,8 @@ fn freshness__repeated_calls_never_repeat() {
         let (mut rs, mut rt) = (BTreeSet::new(), BTreeSet::new());
         for i in 0..40 {
             let (s, e) = if i % 3 == 2 { cc.encaps(&mpk, &ap("SEC::LOW && DPT::FIN")).unwrap() } else { cc.recaps(&msk, &mpk, &e0).unwrap() };
-            assert!(rs.insert(s.to_vec()), "C16: a re-encapsulation (or the encapsulation following it) repeats a secret");
-            assert!(rt.insert(e.tag), "C16: a re-encapsulation (or the encapsulation following it) repeats a tag");
+            vchk!(rs.insert(s.to_vec()), "C16: a re-encapsulation (or the encapsulation following it) repeats a secret");
+            vchk!(rt.insert(e.tag), "C16: a re-encapsulation (or the encapsulation following it) repeats a tag");
             n += 1;
         }
     }
@@ -821,37 +837,38 @@ fn freshness__repeated_calls_never_repeat() {
         }).collect();
         for h in hs { h.join().unwrap(); }
         let g = seen.lock().unwrap();
-        assert!(g.0.len() == g.2 && g.1.len() == g.2, "C16: {} concurrent encapsulations on a shared instance produced only {} distinct secrets / {} distinct tags", g.2, g.0.len(), g.1.len());
+        vchk!(g.0.len() == g.2 && g.1.len() == g.2, "C16: {} concurrent encapsulations on a shared instance produced only {} distinct secrets / {} distinct tags", g.2, g.0.len(), g.1.len());
         n += g.2 as u64;
     }
     let mut ids = BTreeSet::new();
     for _ in 0..reps {
         let k = cc.generate_user_secret_key(&mut msk, &ap("DPT::FIN")).unwrap();
-        assert!(ids.insert(k.id.serialize().unwrap().to_vec()), "C16/C17: two user keys share their identifier");
+        vchk!(ids.insert(k.id.serialize().unwrap().to_vec()), "C16/C17: two user keys share their identifier");
         n += 1;
     }
     let mut published: BTreeSet<Vec<u8>> = mpk.encryption_keys.values().map(|k| k.serialize().unwrap().to_vec()).collect();
     for _ in 0..20 {
         let mpk2 = cc.rekey(&mut msk, &ap("DPT::FIN")).unwrap();
         let r = msk.access_structure.ap_to_enc_rights(&ap("DPT::FIN")).unwrap().into_iter().next().unwrap();
-        assert!(published.insert(mpk2.encryption_keys[&r].serialize().unwrap().to_vec()), "C16: a rekey publishes a public value that was published before");
+        vchk!(published.insert(mpk2.encryption_keys[&r].serialize().unwrap().to_vec()), "C16: a rekey publishes a public value that was published before");
         n += 1;
     }
     println!("VERIF-COUNT freshness__repeated_calls_never_repeat {n}");
+    done();
 }
 trait SerAll { fn serialize_all(&self) -> Vec<u8>; }
 impl SerAll for Vec<<ElGamal as Nike>::PublicKey> {
     fn serialize_all(&self) -> Vec<u8> { self.iter().flat_map(|p| p.serialize().unwrap().to_vec()).collect() }
 }
 
-// @obl props=C17,C13 tier=quick fn=core::TracingSecretKey::generate_user_id shape="30 keys generated / refreshed (both flags) / master key round-tripped: id registered, distinct, validates against the tracers; ps and tpk equal the public tracers; unknown id refused"
+// @obl props=C10,C13,C17 tier=quick fn=core::TracingSecretKey::generate_user_id shape="30 keys generated / refreshed (both flags) / master key round-tripped: id registered, distinct, validates against the tracers; ps and tpk equal the public tracers; unknown id refused"
 #[test]
 fn tracing__issued_keys_are_registered_and_valid() {
     let cc = Covercrypt::default();
     let (mut msk, mpk) = cc_keygen(&cc, false).unwrap();
     let mut n = 0u64;
     let tracers: Vec<_> = msk.tsk.tracers.iter().map(|(_, p)| p.clone()).collect();
-    assert!(mpk.tpk.0.iter().cloned().collect::<Vec<_>>() == tracers, "C17: the public key carries exactly the public tracers of the master key");
+    vchk!(mpk.tpk.0.iter().cloned().collect::<Vec<_>>() == tracers, "C17: the public key carries exactly the public tracers of the master key");
     let mut keys = vec![];
     for i in 0..30 {
         let mut k = cc.generate_user_secret_key(&mut msk, &ap(["DPT::FIN", "SEC::TOP", "*"][i % 3])).unwrap();
@@ -860,13 +877,13 @@ fn tracing__issued_keys_are_registered_and_valid() {
         keys.push(k);
     }
     for (i, k) in keys.iter().enumerate() {
-        assert!(msk.tsk.is_known(&k.id), "C17: the identifier of issued key {i} is not recorded in the master key");
-        assert!(msk.tsk._validate_user_id(&k.id), "C17: the markers of key {i} combined with the tracers do not give the binding scalar");
-        assert!(k.ps == tracers, "C17: the tracing points of key {i} are not the public tracers of the master key");
-        assert!(keys.iter().filter(|o| o.id == k.id).count() == 1, "C17: two issued keys share an identifier");
+        vchk!(msk.tsk.is_known(&k.id), "C17: the identifier of issued key {i} is not recorded in the master key");
+        vchk!(msk.tsk._validate_user_id(&k.id), "C17: the markers of key {i} combined with the tracers do not give the binding scalar");
+        vchk!(k.ps == tracers, "C17: the tracing points of key {i} are not the public tracers of the master key");
+        vchk!(keys.iter().filter(|o| o.id == k.id).count() == 1, "C17: two issued keys share an identifier");
         n += 1;
     }
-    assert!(msk.tsk.users.len() == keys.len(), "C17: exactly the issued identifiers are recorded");
+    vchk!(msk.tsk.users.len() == keys.len(), "C17: exactly the issued identifiers are recorded");
     // higher tracing levels: issued keys validate and decapsulate
     for level in [MIN_TRACING_LEVEL + 1, MIN_TRACING_LEVEL + 3] {
         let mut m2 = primitives::setup(level, &mut *cc.rng()).unwrap();
@@ -875,10 +892,10 @@ fn tracing__issued_keys_are_registered_and_valid() {
         let (ss, enc) = cc.encaps(&mpk2, &ap("DPT::MKG && SEC::TOP")).unwrap();
         for i in 0..3 {
             let mut k = cc.generate_user_secret_key(&mut m2, &ap("DPT::MKG && SEC::TOP")).unwrap();
-            assert!(m2.tsk._validate_user_id(&k.id) && m2.tsk.is_known(&k.id), "C17: level {level}: issued key #{i} does not satisfy the tracing relation or is not registered");
-            assert!(cc.decaps(&k, &enc).unwrap().as_ref() == Some(&ss), "C17/C01: level {level}: issued key #{i} does not open an encapsulation it is authorized for");
+            vchk!(m2.tsk._validate_user_id(&k.id) && m2.tsk.is_known(&k.id), "C17: level {level}: issued key #{i} does not satisfy the tracing relation or is not registered");
+            vchk!(cc.decaps(&k, &enc).unwrap().as_ref() == Some(&ss), "C17/C01: level {level}: issued key #{i} does not open an encapsulation it is authorized for");
             cc.refresh_usk(&mut m2, &mut k, i % 2 == 0).unwrap();
-            assert!(m2.tsk._validate_user_id(&k.id) && cc.decaps(&k, &enc).unwrap().as_ref() == Some(&ss), "C17: level {level}: refreshed key #{i} is invalid");
+            vchk!(m2.tsk._validate_user_id(&k.id) && cc.decaps(&k, &enc).unwrap().as_ref() == Some(&ss), "C17: level {level}: refreshed key #{i} is invalid");
             n += 1;
         }
     }
@@ -888,9 +905,10 @@ fn tracing__issued_keys_are_registered_and_valid() {
     msk.signing_key = None;
     let mut foreign = cc.generate_user_secret_key(&mut other, &ap("DPT::FIN")).unwrap();
     let before = (foreign.serialize().unwrap().to_vec(), msk.serialize().unwrap().to_vec());
-    assert!(cc.refresh_usk(&mut msk, &mut foreign, true).is_err(), "C17/C08: a key whose identifier the master key does not know is refused");
-    assert!((foreign.serialize().unwrap().to_vec(), msk.serialize().unwrap().to_vec()) == before, "C10: a refused refresh modifies neither key");
+    vchk!(cc.refresh_usk(&mut msk, &mut foreign, true).is_err(), "C17/C08: a key whose identifier the master key does not know is refused");
+    vchk!((foreign.serialize().unwrap().to_vec(), msk.serialize().unwrap().to_vec()) == before, "C10: a refused refresh modifies neither key");
     println!("VERIF-COUNT tracing__issued_keys_are_registered_and_valid {n}");
+    done();
 }
 
 // @obl props=C18 tier=quick fn=api::Covercrypt::recaps shape="originals with 1-3 targets (classic / hybridized / mixed) made under the first public key; after nothing / rekey / rekey+prune / disable / delete: audience of the re-encapsulation = rights of the original the master key still opens and publishes; 6 keys (refreshed and stale)"
@@ -928,12 +946,12 @@ fn recaps__preserves_the_audience() {
             let opened: BTreeSet<Vec<u8>> = om.targets.iter().filter(|(r, g)| model.master.get(*r).map_or(false, |c| c.iter().any(|(gg, act)| gg == *g && *act))).map(|(r, _)| r.clone()).collect();
             let res = cc.recaps(&msk, &mpk, enc);
             if opened.is_empty() {
-                assert!(res.is_err(), "C18: scenario {scenario}: re-encapsulating '{e}' must fail when none of its rights can be recovered");
+                vchk!(res.is_err(), "C18: scenario {scenario}: re-encapsulating '{e}' must fail when none of its rights can be recovered");
                 n += 1;
                 continue;
             }
             if !opened.iter().all(|r| model.published(r)) {
-                assert!(res.is_err(), "C18/C06: scenario {scenario}: re-encapsulating '{e}' must fail when a recovered right is not published");
+                vchk!(res.is_err(), "C18/C06: scenario {scenario}: re-encapsulating '{e}' must fail when a recovered right is not published");
                 n += 1;
                 continue;
             }
@@ -942,16 +960,17 @@ fn recaps__preserves_the_audience() {
             for (i, k) in keys.iter().enumerate() {
                 let got = cc.decaps(k, &enc2).unwrap();
                 if can_open(&mkeys[i], &me2) {
-                    assert!(got.as_ref() == Some(&ss2), "C18: scenario {scenario}: the key for '{}' must open the re-encapsulation of '{e}' to the new secret", users[i]);
+                    vchk!(got.as_ref() == Some(&ss2), "C18: scenario {scenario}: the key for '{}' must open the re-encapsulation of '{e}' to the new secret", users[i]);
                 } else {
-                    assert!(got.is_none(), "C18: scenario {scenario}: the key for '{}' must not open the re-encapsulation of '{e}'", users[i]);
+                    vchk!(got.is_none(), "C18: scenario {scenario}: the key for '{}' must not open the re-encapsulation of '{e}'", users[i]);
                 }
                 n += 1;
             }
-            assert!(ss2 != encs.iter().find(|x| x.0 == *e).unwrap().1 .0, "C18/C16: the re-encapsulation carries a new secret");
+            vchk!(ss2 != encs.iter().find(|x| x.0 == *e).unwrap().1 .0, "C18/C16: the re-encapsulation carries a new secret");
         }
     }
     println!("VERIF-COUNT recaps__preserves_the_audience {n}");
+    done();
 }
 fn cc_rights(u: &str) -> BTreeSet<Vec<u8>> {
     let cc = Covercrypt::default();
@@ -1009,20 +1028,21 @@ fn signature__structural_tampering_is_rejected() {
             let before = (m.serialize().unwrap().to_vec(), msk.serialize().unwrap().to_vec());
             let r = cc.refresh_usk(&mut msk, m, keep);
             let tag = if name.starts_with("identifier") { "C08/C09/C17" } else { "C08/C09" };
-            assert!(r.is_err(), "{tag}: a user key with {name} is accepted for refresh (keep = {keep}){}", if name.starts_with("identifier") { ": the re-issued key shares its identifier with another issued key" } else { "" });
-            assert!((m.serialize().unwrap().to_vec(), msk.serialize().unwrap().to_vec()) == before, "C08/C10: a refused refresh ({name}) modified the user key or the master key");
+            vchk!(r.is_err(), "{tag}: a user key with {name} is accepted for refresh (keep = {keep}){}", if name.starts_with("identifier") { ": the re-issued key shares its identifier with another issued key" } else { "" });
+            vchk!((m.serialize().unwrap().to_vec(), msk.serialize().unwrap().to_vec()) == before, "C08/C10: a refused refresh ({name}) modified the user key or the master key");
             n += 1;
         }
     }
     // issued keys are accepted
     for keep in [true, false] {
         let mut a = k1.clone();
-        assert!(cc.refresh_usk(&mut msk, &mut a, keep).is_ok(), "C08/C09: an issued key is accepted for refresh");
+        vchk!(cc.refresh_usk(&mut msk, &mut a, keep).is_ok(), "C08/C09: an issued key is accepted for refresh");
         let mut b = a.clone();
-        assert!(cc.refresh_usk(&mut msk, &mut b, keep).is_ok(), "C08: a key issued by an earlier refresh is accepted");
+        vchk!(cc.refresh_usk(&mut msk, &mut b, keep).is_ok(), "C08: a key issued by an earlier refresh is accepted");
         n += 2;
     }
     println!("VERIF-COUNT signature__structural_tampering_is_rejected {n}");
+    done();
 }
 
 // @obl props=C08 tier=quick fn=core::primitives::sign shape="re-framing: bytes shifted between a right's name and the neighbouring secret (2 rights with 1-byte names, classic secrets)"
@@ -1053,12 +1073,13 @@ fn signature__reframing_of_names_and_secrets_is_rejected() {
             found = true;
             let before = forged.serialize().unwrap().to_vec();
             let r = cc.refresh_usk(&mut msk, &mut forged, true);
-            assert!(r.is_err(), "C08: a user key whose bytes were shifted between a right's name and the neighbouring secret (same signed byte stream, different rights and secrets) is accepted for refresh");
-            assert!(forged.serialize().unwrap().to_vec() == before, "C10: a refused refresh modified the user key");
+            vchk!(r.is_err(), "C08: a user key whose bytes were shifted between a right's name and the neighbouring secret (same signed byte stream, different rights and secrets) is accepted for refresh");
+            vchk!(r.is_ok() || forged.serialize().unwrap().to_vec() == before, "C08/C10: a refused refresh modified the user key");
             n += 1;
         }
         if found { break; }
     }
     assert!(found, "no candidate key found for the re-framing experiment");
     println!("VERIF-COUNT signature__reframing_of_names_and_secrets_is_rejected {n}");
+    done();
 }
